@@ -5,6 +5,7 @@ import (
 	"encoding/json"
 	"fmt"
 	"sort"
+	"strings"
 
 	"github.com/0xrawsec/sod"
 
@@ -161,13 +162,21 @@ func (s *Seq) smallSweep0(tag, ctx string) {
 	for _, o := range all {
 		exp, ok := m.objs[o.K]
 		if !ok || smallJSON(exp) != smallJSON(o) || o.UUID() != m.uuid[o.K] {
-			s.fail(tag, "small-wrong-content", "%s: second collection: got %s (uuid %s), expected %v", ctx, smallJSON(o), o.UUID(), exp)
+			t := tag
+			if ok && strings.EqualFold(smallJSON(exp), smallJSON(o)) {
+				t = "case" // only the case of a constrained field differs
+			}
+			s.fail(t, "small-wrong-content", "%s: second collection: got %s (uuid %s), expected %s", ctx, smallJSON(o), o.UUID(), smallJSON(exp))
 		}
 	}
 	for _, k := range m.keys() {
 		o, err := s.db.GetByUUID(small0(), m.uuid[k])
 		if err != nil || smallJSON(o.(*shapes.Small)) != smallJSON(m.objs[k]) {
-			s.fail(tag, "small-get", "%s: second collection: Get K=%d = %v, %v", ctx, k, o, err)
+			t := tag
+			if err == nil && strings.EqualFold(smallJSON(o.(*shapes.Small)), smallJSON(m.objs[k])) {
+				t = "case"
+			}
+			s.fail(t, "small-get", "%s: second collection: Get K=%d = %v, %v", ctx, k, o, err)
 		}
 	}
 	// a case-insensitive search on the tagged (index,lower) field
